@@ -11,10 +11,10 @@ TRUST = ('Trusted: TLC 1.8 + CommunityModules; harness render/project (exercised
 CHECKS = {
     'C01': dict(
         technique='TLA+ spec StoneSem (rule catalogue Violations/WellFormed) + StoneSemMC authoring machine explored by TLC; every finished model rendered to .stone text and compiled by specs_to_ir',
-        text='Six scenario universes (struct inheritance and field clashes; aliases and nullability incl. chains, cycles through '
+        text='Seven scenario universes (patches: targets, kinds, openness, clashes with own/inherited/descendant/other-patch members, two patches of one type; struct inheritance and field clashes; aliases and nullability incl. chains, cycles through '
              'List/nullable; namespaces and imports incl. self/unknown/mutual import and unimported or non-namespace qualifiers; '
              'unions open/closed with parents and tag clashes; enumerated subtypes; routes with versions, clashes and deprecation) '
-             'enumerate every combination of legal choices and injected rule violations at every site (~2700 instances). TLC '
+             'enumerate every combination of legal choices and injected rule violations at every site (~2900 instances). TLC '
              'authors each instance in several orders / file splits / file orders (~1.4*10^5 states), checks OrderFree, '
              'CycleAgreement (operational in-progress-set resolution = declarative acyclicity) and DenoteClosed, and every finished '
              'model is replayed: specs_to_ir must return an Api iff WellFormed, and must fail only with InvalidSpec. StoneLitMC adds the '
